@@ -71,14 +71,17 @@ type Contract struct {
 }
 
 type SpecFunc struct {
-	Name   string
-	Pkg    string
-	Params []Param
-	Result ast.Expr
-	Body   ast.Expr // nil: uninterpreted
-	Src    string
-	Where  string
-	Rec    bool
+	Name     string
+	Pkg      string
+	Params   []Param
+	Result   ast.Expr
+	Body     ast.Expr // nil: uninterpreted
+	Src      string
+	Where    string
+	Rec      bool
+	readKeys []readRec
+	keysDone bool
+	probing  bool
 }
 
 type GuardedBy struct {
